@@ -68,8 +68,12 @@ QuatToRpy(route) == rep = "quat"  /\ rep' = "angles"
 AxangToQuat(route) == rep = "axang" /\ rep' = "quat" /\ pay' = FromAxang(pay[1], pay[2], pay[3]) /\ UNCHANGED <<g, org>>
 (* quaternion -> axis-angle: axis direction = vector part (for sin > 0), half-angle pair = (w, |v|); *)
 (* |v| is an integer exactly when the register came from an integer-length axis                      *)
-QuatToAxang(route) == /\ rep = "quat" /\ org[1] = "axang"
-                      /\ rep' = "axang2" /\ pay' = << Vec(pay), << pay[1], org[4][2] * org[3] >> >>
+(* the register may hold either representative of the rotation: -q is the same rotation with a negative scalar part, *)
+(* its axis-angle reading is the opposite axis with the angle 2 pi - theta (half-angle pair (-w, |v|))                *)
+Negate == rep = "quat" /\ org[1] = "axang" /\ rep' = "quatneg" /\ pay' = NegQ(pay) /\ UNCHANGED <<g, org>>
+QuatToAxang(route) == /\ rep \in {"quat", "quatneg"} /\ org[1] = "axang"
+                      /\ rep' = (IF rep = "quat" THEN "axang2" ELSE "axang2neg")
+                      /\ pay' = << Vec(pay), << pay[1], org[4][2] * org[3] >> >>
                       /\ UNCHANGED <<g, org>>
 EulerToMat(route) == rep = "euler" /\ rep' = "mat" /\ pay' = << M(SeqQuat(pay[1], pay[2])), Norm2(SeqQuat(pay[1], pay[2])) >>
                      /\ UNCHANGED <<g, org>>
@@ -81,6 +85,7 @@ Next == \/ \E r \in RpyRoutes : RpyToQuat(r)
         \/ \E r \in AngRoutes : QuatToRpy(r)
         \/ \E r \in AxqRoutes : AxangToQuat(r)
         \/ \E r \in QaxRoutes : QuatToAxang(r)
+        \/ Negate
         \/ \E r \in MatRoutes : EulerToMat(r)
         \/ \E k \in Exponents : PowerOf(k)
 Spec == Init /\ [][Next]_vars
@@ -92,6 +97,8 @@ Denotes ==
       [] rep = "mat"    -> pay[1] = M(g) /\ pay[2] = Norm2(g)
       [] rep = "angles" -> /\ RollOf(g) = pay[1] /\ SinPitch(g) = pay[2] /\ YawOf(g) = pay[3]
       [] rep = "axang2" -> SameDir3(pay[1], Vec(g)) \/ IsZero3(Vec(g))
+      [] rep = "quatneg" -> SameRay4(NegQ(pay), g)
+      [] rep = "axang2neg" -> SameDir3(pay[1], Vec(NegQ(g))) \/ IsZero3(Vec(g))
       [] OTHER -> TRUE
 (* round trips: angles -> quaternion -> angles gives the angles back (|pitch| < 90 deg) *)
 RpyRoundTrip == (rep = "angles" /\ org[1] = "rpy") =>
@@ -103,6 +110,13 @@ RpyRoundTrip == (rep = "angles" /\ org[1] = "rpy") =>
 AxangRoundTrip == (rep = "axang2" /\ org[1] = "axang") =>
                    /\ SameDir3(pay[1], org[2])
                    /\ SameAngle(pay[2], org[4])
+(* whichever representative was read, the (axis, half-angle) pair reassembles to the same rotation:        *)
+(* (cos, sin * axis/|axis|) scaled by |axis| = |v| is collinear with the ghost -- with BOTH components signed *)
+AxangSameRotation == (rep \in {"axang2", "axang2neg"}) =>
+                   LET c == pay[2][1] sn == pay[2][2] a == pay[1]
+                   IN  Collinear4(<< c * sn, sn * a[1], sn * a[2], sn * a[3] >>, g)
+(* and reading -q never yields the angle of q about the opposite axis (that is the inverse rotation) *)
+NegativeReadsTheLongWay == (rep = "axang2neg" /\ ~IsZero3(Vec(g))) => pay[2][1] * g[1] <= 0
 (* powers: q^0 = 1, q^1 = q, q^j q^k = q^(j+k) (checked on the ghost for all offered exponents) *)
 PowerLaws == (rep = "quat" /\ SmallQ(pay)) =>
                 /\ PowQ(pay, 0) = One /\ PowQ(pay, 1) = pay
